@@ -223,6 +223,8 @@ def main(tier, seed):
                     rep.violation('piecewise:%s' % name, 'nthderiv.%s(%s, n=%d) = %r, expected %r' % (name, x, n, got, want), dict(kind='piecewise', function=name, x=str(x), n=n))
             except Exception as e:
                 rep.violation('piecewise:%s:exception' % name, 'nthderiv.%s raises %r' % (name, e), dict(kind='piecewise', function=name, x=str(x), n=n))
+    import r9
+    r9.c16_same_object(rep, nd, FUNCS, rng, tier)
     return rep.finish()
 
 
